@@ -7,6 +7,7 @@ package mockq
 
 import (
 	"context"
+	"fmt"
 	"regexp"
 	"sort"
 	"strings"
@@ -124,6 +125,9 @@ func (q *Querier) SelectLogs(_ context.Context, start, end otelstorage.Timestamp
 		return nil, q.FailSelect
 	}
 	var out []logstorage.Record
+	// Records of one stream share one resource-attribute map, as they do in the Docker querier (every record of a
+	// container carries the same map): writing through it shows in the records that follow.
+	shared := map[string]pcommon.Map{}
 	for _, r := range q.Recs {
 		if q.TimeFilter && (r.TS < int64(start) || r.TS > int64(end)) {
 			continue
@@ -148,9 +152,17 @@ func (q *Querier) SelectLogs(_ context.Context, start, end otelstorage.Timestamp
 		if !ok {
 			continue
 		}
-		attrs := pcommon.NewMap()
+		skey := ""
 		for _, kv := range r.Labels {
-			attrs.PutStr(kv.K, kv.V)
+			skey += fmt.Sprintf("%d:%s=%d:%s,", len(kv.K), kv.K, len(kv.V), kv.V) // (length-prefixed: label values are arbitrary bytes)
+		}
+		attrs, have := shared[skey]
+		if !have {
+			attrs = pcommon.NewMap()
+			for _, kv := range r.Labels {
+				attrs.PutStr(kv.K, kv.V)
+			}
+			shared[skey] = attrs
 		}
 		out = append(out, logstorage.Record{
 			Timestamp:         otelstorage.Timestamp(r.TS),
